@@ -792,4 +792,63 @@ def inline_new_helpers(tree: ast.Module, rel: str) -> Tuple[ast.Module, List[str
         if not inl.count:
             break
         done += [f"{n} [{t.form}]" for n, t in templates.items()]
+    if done:
+        _renumber(tree)
     return tree, sorted(set(done))
+
+
+def _renumber(tree) -> None:
+    """Substituted statements all carry the line of their call site, which makes "A comes before B" tests by line number meaningless.  In every
+    function that received substituted code the statements get strictly increasing synthetic line numbers in execution-text order; the source
+    line is kept in `src_lineno` (reports show that one)."""
+    for fn in ast.walk(tree):
+        if not isinstance(fn, (ast.FunctionDef, ast.AsyncFunctionDef)):
+            continue
+        stmts = [n for n in ast.walk(fn) if isinstance(n, ast.stmt) and n is not fn]
+        lines = [getattr(n, "lineno", 0) for n in stmts]
+        # only where some block is not already strictly increasing
+        def ordered(body):
+            ls = [getattr(x, "lineno", 0) for x in body]
+            return all(a < b for a, b in zip(ls, ls[1:]))
+        blocks = [getattr(n, f) for n in ast.walk(fn) for f in ("body", "orelse", "finalbody")
+                  if isinstance(getattr(n, f, None), list) and getattr(n, f) and isinstance(getattr(n, f)[0], ast.stmt)]
+        if all(ordered(b) for b in blocks):
+            continue
+        counter = [getattr(fn, "lineno", 1)]
+
+        def number(node, line):
+            for x in ast.walk(node):
+                if hasattr(x, "lineno") and not isinstance(x, ast.stmt):
+                    if not hasattr(x, "src_lineno"):
+                        x.src_lineno = x.lineno
+                    x.lineno = line
+                    x.end_lineno = line
+
+        def visit_block(body):
+            for st in body:
+                counter[0] += 1
+                line = counter[0]
+                if not hasattr(st, "src_lineno"):
+                    st.src_lineno = getattr(st, "lineno", line)
+                st.lineno = line
+                # header expressions of this statement
+                for field, value in ast.iter_fields(st):
+                    if field in ("body", "orelse", "finalbody", "handlers"):
+                        continue
+                    for v in (value if isinstance(value, list) else [value]):
+                        if isinstance(v, ast.AST):
+                            number(v, line)
+                if isinstance(st, (ast.FunctionDef, ast.AsyncFunctionDef, ast.ClassDef)):
+                    visit_block(st.body)
+                else:
+                    for f in ("body", "orelse", "finalbody"):
+                        b = getattr(st, f, None)
+                        if isinstance(b, list) and b and isinstance(b[0], ast.stmt):
+                            visit_block(b)
+                    for h in getattr(st, "handlers", None) or []:
+                        counter[0] += 1
+                        h.src_lineno = getattr(h, "lineno", counter[0])
+                        h.lineno = counter[0]
+                        visit_block(h.body)
+                st.end_lineno = counter[0]
+        visit_block(fn.body)
